@@ -761,3 +761,124 @@ def mc_impl(depth, snapshot=True, name="impl"):
     if m:
         return False, st, m.group(1)
     raise MachineryError("MC_GfaImpl failed:\n" + "\n".join(out.splitlines()[-30:]))
+
+
+# --------------------------------------------------------------------------
+# fuzz driver: random graphs with names/values outside the catalogues (large alphabets that TLC
+# would not enumerate); trace validation does not depend on a catalogue
+
+NAME_POOL = ["s1", "A_B", "x.y", "12", "7", "a:b", "Q", "node|3", "c#1", "z9", "100", "u~v"]
+CIGARS = ["*", "1M", "3M", "2M1D1M", "1I2M", "4M1I", "2=", "1M1X1M"]
+
+
+def fuzz_jobs(n, seed, version, nmut=6, kind="fuzz"):
+    rnd = random.Random(seed)
+    jobs = []
+    A = lambda t: dict(k="add", text=t, id="", id2="")
+    for j in range(n):
+        k = rnd.randint(2, 5)
+        names = rnd.sample(NAME_POOL, k)
+        lens = {x: rnd.randint(3, 9) for x in names}
+        lines, ids = [], list(names)
+        seq = lambda L: "".join(rnd.choice("ACGT") for _ in range(L))
+        if version == "gfa1":
+            for x in names:
+                c = rnd.random()
+                lines.append("S\t%s\t%s" % (x, seq(lens[x])) if c < 0.4 else
+                             "S\t%s\t*\tLN:i:%d" % (x, lens[x]) if c < 0.8 else "S\t%s\t*" % x)
+            links = []
+            for _ in range(rnd.randint(1, 5)):
+                a, b = rnd.choice(names), rnd.choice(names)
+                o1, o2 = rnd.choice("+-"), rnd.choice("+-")
+                if any(l[:4] == (a, o1, b, o2) for l in links):
+                    continue
+                cg = rnd.choice(CIGARS)
+                links.append((a, o1, b, o2, cg))
+                tag = ""
+                if rnd.random() < 0.3:
+                    lid = "l%d" % len(links) if rnd.random() < 0.7 else str(rnd.randint(1, 30))
+                    if lid not in ids:
+                        ids.append(lid)
+                        tag = "\tID:Z:" + lid
+                lines.append("L\t%s\t%s\t%s\t%s\t%s%s" % (a, o1, b, o2, cg, tag))
+            for _ in range(rnd.randint(0, 2)):
+                a, b = rnd.sample(names, 2) if k >= 2 else (names[0], names[0])
+                lines.append("C\t%s\t%s\t%s\t%s\t%d\t*" % (a, rnd.choice("+-"), b, rnd.choice("+-"), rnd.randint(0, 2)))
+            for pi in range(rnd.randint(0, 2)):
+                if not links:
+                    break
+                walk = [rnd.choice(links)]
+                for _ in range(rnd.randint(0, 2)):
+                    nxt = [l for l in links if (l[0], l[1]) == (walk[-1][2], walk[-1][3])]
+                    if not nxt:
+                        break
+                    walk.append(rnd.choice(nxt))
+                segs = ["%s%s" % (walk[0][0], walk[0][1])] + ["%s%s" % (l[2], l[3]) for l in walk]
+                pn = "p%d" % pi
+                ids.append(pn)
+                ov = "*" if rnd.random() < 0.5 else ",".join(l[4] for l in walk)
+                if rnd.random() < 0.3:      # traverse the walk backwards (complement links)
+                    inv = {"+": "-", "-": "+"}
+                    segs = [s[:-1] + inv[s[-1]] for s in reversed(segs)]
+                    ov = "*"
+                lines.append("P\t%s\t%s\t%s" % (pn, ",".join(segs), ov))
+        else:
+            for x in names:
+                lines.append("S\t%s\t%d\t%s" % (x, lens[x], seq(lens[x]) if rnd.random() < 0.4 else "*"))
+            def iv(x):
+                L = lens[x]
+                b = rnd.choice([0, 0, rnd.randint(0, L)])
+                e = rnd.choice([L, L, rnd.randint(b, L)])
+                return "%d%s" % (b, "$" if b == L else ""), "%d%s" % (e, "$" if e == L else "")
+            edges = []
+            for _ in range(rnd.randint(1, 5)):
+                a, b = rnd.choice(names), rnd.choice(names)
+                eid = "*" if rnd.random() < 0.3 else ("e%d" % len(edges) if rnd.random() < 0.7 else str(rnd.randint(1, 30)))
+                if eid != "*":
+                    if eid in ids:
+                        continue
+                    ids.append(eid)
+                (b1, e1), (b2, e2) = iv(a), iv(b)
+                edges.append(eid)
+                lines.append("E\t%s\t%s%s\t%s%s\t%s\t%s\t%s\t%s\t*" % (eid, a, rnd.choice("+-"), b, rnd.choice("+-"), b1, e1, b2, e2))
+            for gi in range(rnd.randint(0, 2)):
+                a, b = rnd.choice(names), rnd.choice(names)
+                gid = "g%d" % gi
+                ids.append(gid)
+                lines.append("G\t%s\t%s%s\t%s%s\t%d\t%s" % (gid, a, rnd.choice("+-"), b, rnd.choice("+-"), rnd.randint(1, 50), rnd.choice(["*", "3"])))
+            for _ in range(rnd.randint(0, 2)):
+                x = rnd.choice(names)
+                (b1, e1) = iv(x)
+                lines.append("F\t%s\tread%d%s\t%s\t%s\t0\t%d\t*" % (x, rnd.randint(1, 3), rnd.choice("+-"), b1, e1, rnd.randint(1, 5)))
+            named = [e for e in edges if e != "*"]
+            for ui in range(rnd.randint(0, 2)):
+                popu = names + named + [i for i in ids if i.startswith("g")]
+                items = rnd.sample(popu, min(len(popu), rnd.randint(1, 3)))
+                un = "u%d" % ui
+                ids.append(un)
+                lines.append("U\t%s\t%s" % (un, " ".join(items)))
+            for oi in range(rnd.randint(0, 1)):
+                on = "o%d" % oi
+                ids.append(on)
+                lines.append("O\t%s\t%s" % (on, " ".join(x + rnd.choice("+-") for x in rnd.sample(names, min(2, k)))))
+        rnd.shuffle(lines)
+        ops = [A(t) for t in lines]
+        fresh = ["new%d" % rnd.randint(1, 9), str(rnd.randint(1, 40)), rnd.choice(NAME_POOL)]
+        for _ in range(nmut):
+            c = rnd.random()
+            if c < 0.3:
+                ops.append(dict(k="rm", text="", id=rnd.choice(ids), id2=""))
+            elif c < 0.5:
+                ops.append(dict(k="ren", text="", id=rnd.choice(ids), id2=rnd.choice(fresh + ids)))
+            elif c < 0.65:
+                t = rnd.choice(lines)
+                ops.append(dict(k="disc", text=t, id="", id2="") if t[0] != "S" else A(t))
+            elif c < 0.75:
+                ops.append(dict(k="unused", text="", id="", id2=""))
+            elif c < 0.85:
+                ops.append(dict(k="settag", text="H\txx:i:%d" % rnd.randint(0, 2 ** 31 - 1), id=rnd.choice(ids), id2=""))
+            else:
+                ops.append(A(rnd.choice(lines)))
+        jobs.append(dict(id="%s-%s-%d" % (kind, version, j), kind=kind, cfg=dict(version=version, vlevel=rnd.choice([1, 1, 2, 3, 0])),
+                         ops=ops, universe=sorted(set(ids + fresh))[:16] + ["zz"]))
+    return jobs
